@@ -19,6 +19,7 @@ import (
 	"crypto/x509/pkix"
 	"encoding/hex"
 	"encoding/json"
+	"encoding/pem"
 	"errors"
 	"flag"
 	"fmt"
@@ -39,6 +40,7 @@ import (
 	adminnosql "github.com/smallstep/certificates/authority/admin/db/nosql"
 	"github.com/smallstep/certificates/authority/config"
 	authpolicy "github.com/smallstep/certificates/authority/policy"
+	"github.com/smallstep/certificates/authority/provisioner"
 	"github.com/smallstep/certificates/db"
 	capolicy "github.com/smallstep/certificates/policy"
 	"github.com/smallstep/nosql"
@@ -192,6 +194,27 @@ func (ps *polSpec) linked() *linkedca.Policy {
 	return &linkedca.Policy{X509: x}
 }
 
+// specOf: the pool entry a stored policy came from (nil: no policy)
+func specOf(p *linkedca.Policy) *polSpec {
+	if p == nil {
+		return nil
+	}
+	allow, deny := p.GetX509().GetAllow().GetDns(), p.GetX509().GetDeny().GetDns()
+	for i := range polPool {
+		ps := &polPool[i]
+		if ps.empty {
+			if p.GetX509() != nil && len(allow) == 0 && len(deny) == 0 {
+				return ps
+			}
+			continue
+		}
+		if strings.Join(ps.allow, ",") == strings.Join(allow, ",") && strings.Join(ps.deny, ",") == strings.Join(deny, ",") {
+			return ps
+		}
+	}
+	return nil
+}
+
 func tagOf(p *linkedca.Policy) string {
 	if p == nil {
 		return "!"
@@ -334,6 +357,7 @@ type world struct {
 	provIDs []string
 	subs    map[string]bool
 	names   map[string]bool
+	cfgSpec []string // provisioners of the configuration file ("jwk:n0", "acme:n1", "x5c:n2"); nil = none
 }
 
 func newWorld() (*world, error) {
@@ -375,16 +399,151 @@ func (w *world) start() (a *authority.Authority, err error) {
 	cfg := &config.Config{
 		Address:         "127.0.0.1:0",
 		DNSNames:        []string{"ca.verif.test"},
-		AuthorityConfig: &config.AuthConfig{EnableAdmin: true},
+		AuthorityConfig: &config.AuthConfig{EnableAdmin: true, Provisioners: cfgProvisioners(w.cfgSpec)},
 	}
 	return authority.NewEmbedded(
 		authority.WithConfig(cfg),
+		authority.WithPassword([]byte("first-provisioner-password")),
 		authority.WithX509RootCerts(rootCert),
 		authority.WithX509Signer(rootCert, rootKey),
 		authority.WithDatabase(w.adb),
 		authority.WithAdminDB(w.fdb),
 		authority.WithQuietInit(),
 	)
+}
+
+// cfgProvisioners builds the provisioners of a ca.json from specs "<type>:<name>"
+func cfgProvisioners(specs []string) provisioner.List {
+	var l provisioner.List
+	for _, sp := range specs {
+		typ, name, _ := strings.Cut(sp, ":")
+		switch typ {
+		case "jwk":
+			var key jose.JSONWebKey
+			if err := json.Unmarshal(jwkPub, &key); err != nil {
+				must(err)
+			}
+			l = append(l, &provisioner.JWK{Type: "JWK", Name: name, Key: &key})
+		case "acme":
+			l = append(l, &provisioner.ACME{Type: "ACME", Name: name})
+		case "x5c":
+			l = append(l, &provisioner.X5C{Type: "X5C", Name: name, Roots: pem.EncodeToMemory(&pem.Block{Type: "CERTIFICATE", Bytes: rootCert.Raw})})
+		}
+	}
+	return l
+}
+
+// dbTok: the token id (GetIDForToken) of a stored provisioner, by type
+func dbTok(p *linkedca.Provisioner) string {
+	switch p.Type {
+	case linkedca.Provisioner_ACME:
+		return "acme/" + p.Name
+	case linkedca.Provisioner_X5C:
+		return "x5c/" + p.Name
+	case linkedca.Provisioner_JWK:
+		var key jose.JSONWebKey
+		if json.Unmarshal(p.GetDetails().GetJWK().GetPublicKey(), &key) == nil {
+			return p.Name + ":" + key.KeyID
+		}
+	}
+	return tokID(p.Name)
+}
+
+// dbDump: the database alone (after a start that failed there is no authority to ask)
+func (w *world) dbDump() string {
+	ctx := context.Background()
+	var dA, dP []string
+	das, _ := w.inner.GetAdmins(ctx)
+	sort.Slice(das, func(i, j int) bool { return das[i].Id < das[j].Id })
+	for _, a := range das {
+		dA = append(dA, admS(a))
+	}
+	dps, _ := w.inner.GetProvisioners(ctx)
+	for _, p := range dps {
+		dP = append(dP, hx(p.Id)+"."+hx(p.Name)+"."+hx(dbTok(p)))
+	}
+	return fmt.Sprintf("dA[%s]dP[%s]", strings.Join(dA, ","), sortedJoin(dP))
+}
+
+// firstStart starts the CA with the configuration's provisioners on whatever the database holds;
+// on an empty database that is the migration (ProvisionerToLinkedca + CreateProvisioner for each,
+// CreateFirstProvisioner when none is a JWK provisioner, first super admin "step")
+func (w *world) firstStart(o Op, run func(func()), crashed *bool) (tok, item string) {
+	ctx := context.Background()
+	if o.A != nil {
+		w.cfgSpec = o.A
+	}
+	for _, sp := range w.cfgSpec {
+		_, name, _ := strings.Cut(sp, ":")
+		w.names[name] = true
+	}
+	w.names["Admin JWK"] = true
+	w.subs["step"] = true
+	var a *authority.Authority
+	var err error
+	run(func() { a, err = w.start() })
+	// what was written: ids are assigned by the database
+	dps, _ := w.inner.GetProvisioners(ctx)
+	byName := map[string]*linkedca.Provisioner{}
+	for _, p := range dps {
+		byName[p.Name] = p
+	}
+	var items []string
+	hasJWK := false
+	for i, sp := range w.cfgSpec {
+		typ, name, _ := strings.Cut(sp, ":")
+		kind, tokS := linkedca.Provisioner_JWK, tokID(name)
+		switch typ {
+		case "acme":
+			kind, tokS = linkedca.Provisioner_ACME, "acme/"+name
+		case "x5c":
+			kind, tokS = linkedca.Provisioner_X5C, "x5c/"+name
+		default:
+			hasJWK = true
+		}
+		id := fmt.Sprintf("unwritten-%d", i)
+		if p := byName[name]; p != nil {
+			id = p.Id
+			w.provIDs = append(w.provIDs, id)
+		}
+		items = append(items, fmt.Sprintf("c/%s/%s/%s/!/%s/%d", hx(id), hx(name), hx(tokS), hx(sum(id)), kind))
+	}
+	if p := byName["Admin JWK"]; p != nil && !hasJWK {
+		var key jose.JSONWebKey
+		_ = json.Unmarshal(p.GetDetails().GetJWK().GetPublicKey(), &key)
+		items = append(items, fmt.Sprintf("d/%s/%s/%s/%s/%s/%d", hx(p.Id), hx(p.Name), hx(dbTok(p)), hx(key.KeyID), hx(sum(p.Id)), linkedca.Provisioner_JWK))
+		w.provIDs = append(w.provIDs, p.Id)
+	}
+	admID := "!"
+	if das, _ := w.inner.GetAdmins(ctx); len(das) > 0 {
+		known := map[string]bool{}
+		for _, id := range w.admIDs {
+			known[id] = true
+		}
+		for _, x := range das {
+			if x.Subject == "step" && !known[x.Id] { // the one this start created
+				admID = hx(x.Id)
+				w.admIDs = append(w.admIDs, x.Id)
+			}
+		}
+	}
+	list := "-"
+	if len(items) > 0 {
+		list = strings.Join(items, ",")
+	}
+	tok = fmt.Sprintf("fs:%s:%s:%s", faultsS(o.F), admID, list)
+	switch {
+	case *crashed:
+		return tok, "crash#" + w.dbDump()
+	case err != nil:
+		cls := w.class(err)
+		if len(w.fdb.fired) == 0 {
+			cls = "reloadfail" // no storage call failed: the caches could not be built from what is stored
+		}
+		return tok, cls + "#" + w.dbDump()
+	}
+	w.auth = a
+	return tok, "ok#" + w.dump()
 }
 
 func newProv(name string) *linkedca.Provisioner {
@@ -551,7 +710,7 @@ func (w *world) dump() (out string) {
 	}
 	dps, _ := w.inner.GetProvisioners(ctx)
 	for _, p := range dps {
-		dP = append(dP, hx(p.Id)+"."+hx(p.Name)+"."+hx(tokID(p.Name)))
+		dP = append(dP, hx(p.Id)+"."+hx(p.Name)+"."+hx(dbTok(p)))
 	}
 	dpol, _ := w.inner.GetAuthorityPolicy(ctx)
 	var eng []string
@@ -605,11 +764,15 @@ func (w *world) exec(o Op) (tok, item string) {
 		w.admIDs = append(w.admIDs, a.Id)
 		w.subs[o.A[0]] = true
 		return fmt.Sprintf("ia:%s:%s:%s:%s", hx(a.Id), hx(o.A[0]), hx(pid), c.B(o.B)), "-"
+	case "fs":
+		if ps, _ := w.inner.GetProvisioners(ctx); len(ps) != 0 {
+			return "", "" // not a first start
+		}
+		return w.firstStart(o, run, &crashed)
 	case "boot", "rs":
-		// a start on a database without provisioners runs the first-start migration (creates a
-		// provisioner and a super admin, prompts for a password): not modelled, not generated
+		// a start on a database without provisioners is the first-start migration
 		if ps, _ := w.inner.GetProvisioners(ctx); len(ps) == 0 {
-			return "", ""
+			return w.firstStart(Op{K: "fs"}, run, &crashed)
 		}
 		var a *authority.Authority
 		run(func() { a, err = w.start() })
@@ -698,13 +861,26 @@ func (w *world) exec(o Op) (tok, item string) {
 		if ps := polByTag(o.P); ps != nil {
 			nu.Policy = ps.linked()
 			polF = ":" + ps.field()
+		} else if ps := specOf(nu.Policy); ps != nil {
+			// the record carries the policy stored by an earlier update (f9d8004: the admin database keeps it)
+			polF = ":" + ps.field()
 		}
 		detF := setDetails(nu, o.D)
 		if detF != "" && polF == "" {
 			polF = ":!"
 		}
 		run(func() { err = w.auth.UpdateProvisioner(ctx, nu) })
-		return "up:" + provFields(id, o.A[1]) + ":" + faultsS(o.F) + polF + detF, fin()
+		// token id and key id follow the record's type and key (a migrated ACME / X5C provisioner, the
+		// "Admin JWK" of the first start)
+		kidF := "!"
+		if jw := nu.GetDetails().GetJWK(); jw != nil && len(jw.GetEncryptedPrivateKey()) > 0 {
+			var key jose.JSONWebKey
+			if json.Unmarshal(jw.GetPublicKey(), &key) == nil {
+				kidF = hx(key.KeyID)
+			}
+		}
+		fields := fmt.Sprintf("%s:%s:%s:%s:%s", hx(id), hx(o.A[1]), hx(dbTok(nu)), kidF, hx(sum(id)))
+		return "up:" + fields + ":" + faultsS(o.F) + polF + detF, fin()
 	case "rp":
 		id := w.ref(w.provIDs, o.A[0])
 		run(func() { err = w.auth.RemoveProvisioner(ctx, id) })
@@ -762,6 +938,10 @@ func (w *world) check(o Op, id string, before []*linkedca.Admin, err error) stri
 			}
 		}
 		return n
+	}
+	if (o.K == "fs" || o.K == "rs" || o.K == "boot") && err == nil && supers(al) == 0 {
+		// a CA that starts without any super administrator can never get one through the admin API
+		return "nosuper-after-start"
 	}
 	if supers(before) >= 1 && supers(al) == 0 {
 		return "nosuper"
@@ -902,6 +1082,11 @@ func (k *Case) runProps() (line, verdict string) {
 			continue
 		}
 		toks = append(toks, tok)
+		if strings.HasPrefix(tok, "fs:") && len(w.fdb.fired) >= 2 && os.Getenv("C16_NOTAINT") != "1" {
+			// two storage failures in one start (e.g. a write and the delete that takes it back): outside
+			// the single-failure clause, the predicates are not evaluated for the rest of this sequence
+			tainted = true
+		}
 		if verdict != "ok" || w.auth == nil || o.K == "ip" || o.K == "ia" {
 			continue
 		}
@@ -978,7 +1163,7 @@ func (k *Case) run() (line, impl string) {
 	toks := []string{"auth", univToken()}
 	var items []string
 	for _, o := range k.Ops {
-		if w.auth == nil && o.K != "ip" && o.K != "ia" && o.K != "boot" {
+		if w.auth == nil && o.K != "ip" && o.K != "ia" && o.K != "boot" && o.K != "fs" && o.K != "rs" {
 			continue
 		}
 		tok, item := w.exec(o)
@@ -1048,14 +1233,53 @@ func maybeDet(r *c.Rng) string {
 func genCase(r *c.Rng) *Case {
 	k := &Case{}
 	np := 1 + r.Intn(2)
-	for i := 0; i < np; i++ {
-		k.Ops = append(k.Ops, Op{K: "ip", A: []string{nameP[i]}})
+	if r.Chance(1, 6) {
+		// a first start: the configuration's provisioners are migrated into the empty database
+		np = r.Intn(4)
+		spec := []string{}
+		jwk := false
+		for i := 0; i < np; i++ {
+			t := c.Pick(r, []string{"jwk", "jwk", "acme", "x5c"})
+			jwk = jwk || t == "jwk"
+			spec = append(spec, t+":"+nameP[i])
+		}
+		// without a JWK provisioner the start generates and encrypts a key (PBES2, slow): keep that rare
+		if !jwk && !r.Chance(1, 6) {
+			spec = append(spec, "jwk:"+nameP[np])
+			np++
+			jwk = true
+		}
+		calls := np + 4 // GetProvisioners, one write per provisioner, the admin, the two reads of the reload
+		if !jwk {
+			calls++
+			np++
+		}
+		var f []int
+		switch x := r.Intn(10); {
+		case x < 4:
+		case x < 9:
+			f = []int{1 + r.Intn(calls)}
+		default:
+			f = []int{1 + r.Intn(calls), 1 + r.Intn(calls)}
+			if f[0] == f[1] {
+				f = f[:1]
+			}
+			sort.Ints(f)
+		}
+		k.Ops = append(k.Ops, Op{K: "fs", A: spec, F: f}, Op{K: "rs"})
+		if np == 0 {
+			np = 1
+		}
+	} else {
+		for i := 0; i < np; i++ {
+			k.Ops = append(k.Ops, Op{K: "ip", A: []string{nameP[i]}})
+		}
+		k.Ops = append(k.Ops, Op{K: "ia", A: []string{"step", "@0"}, B: true})
+		if r.Chance(1, 2) {
+			k.Ops = append(k.Ops, Op{K: "ia", A: []string{c.Pick(r, subP[:3]), fmt.Sprintf("@%d", r.Intn(np))}, B: r.Chance(1, 2)})
+		}
+		k.Ops = append(k.Ops, Op{K: "boot"})
 	}
-	k.Ops = append(k.Ops, Op{K: "ia", A: []string{"step", "@0"}, B: true})
-	if r.Chance(1, 2) {
-		k.Ops = append(k.Ops, Op{K: "ia", A: []string{c.Pick(r, subP[:3]), fmt.Sprintf("@%d", r.Intn(np))}, B: r.Chance(1, 2)})
-	}
-	k.Ops = append(k.Ops, Op{K: "boot"})
 	n := 4 + r.Intn(14)
 	na, npv := 2, np // upper bounds for references (creations are counted optimistically)
 	for i := 0; i < n; i++ {
@@ -1126,6 +1350,18 @@ func corner() []*Case {
 		// details of another provisioner type, or none: refused on create and on update, restart works (F4)
 		with(Op{K: "sp", A: []string{"n2"}, D: "acme"}, Op{K: "up", A: []string{"@0", "n0"}, D: "oidc"}, Op{K: "up", A: []string{"@0", "n3"}, D: "none"},
 			Op{K: "sp", A: []string{"n2"}, D: "none", F: []int{1}}, Op{K: "rs"}, Op{K: "sp", A: []string{"n2"}}),
+		// first start: complete; interrupted at every call of the migration, then started again; without a JWK
+		// provisioner in the configuration; without any provisioner
+		{Ops: []Op{{K: "fs", A: []string{"jwk:n0", "acme:n1", "jwk:n2"}}, {K: "la", N: 5}, {K: "lp", N: 5}, {K: "rs"}, {K: "sa", A: []string{"s1", "n2"}, B: true}, {K: "rp", A: []string{"@0"}}}},
+		{Ops: []Op{{K: "fs", A: []string{"jwk:n0", "acme:n1"}, F: []int{1}}, {K: "rs"}, {K: "la", N: 5}}},
+		{Ops: []Op{{K: "fs", A: []string{"jwk:n0", "acme:n1"}, F: []int{2}}, {K: "rs"}, {K: "la", N: 5}}},
+		{Ops: []Op{{K: "fs", A: []string{"jwk:n0", "acme:n1"}, F: []int{3}}, {K: "rs"}, {K: "la", N: 5}, {K: "lp", N: 5}}},
+		{Ops: []Op{{K: "fs", A: []string{"jwk:n0", "acme:n1"}, F: []int{4}}, {K: "rs"}, {K: "la", N: 5}}},
+		{Ops: []Op{{K: "fs", A: []string{"jwk:n0", "acme:n1"}, F: []int{5}}, {K: "rs"}, {K: "la", N: 5}}},
+		{Ops: []Op{{K: "fs", A: []string{"jwk:n0", "acme:n1"}, F: []int{6}}, {K: "rs"}, {K: "la", N: 5}}},
+		{Ops: []Op{{K: "fs", A: []string{"acme:n1", "x5c:n2"}}, {K: "la", N: 5}, {K: "lp", N: 5}, {K: "rs"}}},
+		{Ops: []Op{{K: "fs", A: []string{"acme:n1"}, F: []int{3}}, {K: "rs"}, {K: "la", N: 5}}},
+		{Ops: []Op{{K: "fs", A: []string{}, F: []int{2}}, {K: "rs"}, {K: "la", N: 5}, {K: "rs"}}},
 		// claims the provisioner's Init refuses: nothing stored, nothing changed
 		with(Op{K: "sp", A: []string{"n2"}, D: "badclaims"}, Op{K: "up", A: []string{"@0", "n3"}, D: "zeromin"}, Op{K: "up", A: []string{"@0", "n3"}, D: "goodclaims"},
 			Op{K: "sp", A: []string{"n0"}, D: "badclaims"}, Op{K: "rs"}),
